@@ -321,7 +321,8 @@ func (l *Linter) lintSwitchStatement(stmt *ast.SwitchStatement, ctx *context.Con
 	}
 
 	for _, c := range stmt.Cases {
-		for _, s := range c.Statements {
+		// An include statement may be placed in a case like in any other list of statements
+		for _, s := range l.resolveIncludeStatements(c.Statements, ctx, false) {
 			switch s.(type) {
 			case *ast.BreakStatement, *ast.FallthroughStatement:
 				// parser already made sure break/fallthrough is at the end.
